@@ -67,7 +67,7 @@ macro_rules! rv_suite {
       /// C03/C05: recv() parked; a try_send that pairs with it must make it return that value.
       #[kani::proof]
       #[kani::unwind(5)]
-      fn $h1() {
+      pub(crate) fn $h1() {
         setup!(tx, rx);
         sched::install(a_try_send, 1, 1);
         let r = rx.as_ref().unwrap().recv();
@@ -80,7 +80,7 @@ macro_rules! rv_suite {
       /// C03/C05: send() parked; a try_recv that pairs with it must make it return Ok.
       #[kani::proof]
       #[kani::unwind(5)]
-      fn $h2() {
+      pub(crate) fn $h2() {
         setup!(tx, rx);
         sched::install(a_try_recv, 1, 1);
         let r = tx.as_ref().unwrap().send(7);
@@ -94,7 +94,7 @@ macro_rules! rv_suite {
       /// (the value would be lost); Ok(v) must be the sent value.
       #[kani::proof]
       #[kani::unwind(5)]
-      fn $h3() {
+      pub(crate) fn $h3() {
         setup!(tx, rx);
         sched::install(a_try_send, 1, 1);
         let r = rx.as_ref().unwrap().recv_timeout(Duration::from_nanos(5));
@@ -113,7 +113,7 @@ macro_rules! rv_suite {
       /// C04/C05: a parked recv()/send() is released with Disconnected/Closed when the peer goes away.
       #[kani::proof]
       #[kani::unwind(5)]
-      fn $h4() {
+      pub(crate) fn $h4() {
         setup!(tx, rx);
         let recv_side: bool = kani::any();
         if recv_side {
@@ -133,6 +133,6 @@ macro_rules! rv_suite {
     }
   };
 }
-rv_suite!(spsc_rv, fibre::spsc::rendezvous, c05_q_rvspsc_recv_vs_try_send, c05_t_rvspsc_send_vs_try_recv, c01_q_rvspsc_recv_timeout_vs_try_send, c04_q_rvspsc_parked_vs_peer_drop);
-rv_suite!(mpsc_rv, fibre::mpsc::rendezvous, c05_q_rvmpsc_recv_vs_try_send, c05_t_rvmpsc_send_vs_try_recv, c01_q_rvmpsc_recv_timeout_vs_try_send, c04_q_rvmpsc_parked_vs_peer_drop);
-rv_suite!(mpmc_rv, fibre::mpmc::rendezvous, c05_t_rvmpmc_recv_vs_try_send, c05_t_rvmpmc_send_vs_try_recv, c01_q_rvmpmc_recv_timeout_vs_try_send, c04_q_rvmpmc_parked_vs_peer_drop);
+rv_suite!(spsc_rv, fibre::spsc::rendezvous, c05_q_rvspsc_recv_vs_try_send, c05_t_rvspsc_send_vs_try_recv, c01_q_rvspsc_recv_timeout_vs_try_send, c04_t_rvspsc_parked_vs_peer_drop);
+rv_suite!(mpsc_rv, fibre::mpsc::rendezvous, c05_q_rvmpsc_recv_vs_try_send, c05_t_rvmpsc_send_vs_try_recv, c01_q_rvmpsc_recv_timeout_vs_try_send, c04_t_rvmpsc_parked_vs_peer_drop);
+rv_suite!(mpmc_rv, fibre::mpmc::rendezvous, c05_t_rvmpmc_recv_vs_try_send, c05_t_rvmpmc_send_vs_try_recv, c01_t_rvmpmc_recv_timeout_vs_try_send, c04_t_rvmpmc_parked_vs_peer_drop);
